@@ -401,6 +401,17 @@ def adoptAll (cfg : Cfg) (c : Nat) : Tree → List (Nat × Str) → List Nat →
     | (t1, .ok) => adoptAll cfg c t1 (if t.parent k = some c then log else (k, t.label k) :: log) r
     | (t1, e) => (t1, log, e)
 
+/-- the variant of seeded change C13-9: the undo log takes the label *after* `add_child` (which
+may have suffixed it) and skips nodes that are ours already -/
+def adoptAllLate (cfg : Cfg) (c : Nat) : Tree → List (Nat × Str) → List Nat → Tree × List (Nat × Str) × Outcome
+  | t, log, [] => (t, log, .ok)
+  | t, log, k :: r =>
+    if t.parent k = some c then adoptAllLate cfg c t log r
+    else
+      match addChild cfg t c k none none with
+      | (t1, .ok) => adoptAllLate cfg c t1 ((k, t1.label k) :: log) r
+      | (t1, e) => (t1, log, e)
+
 /-- F8 undo, most recent first: `LexicalParent.remove_child(self, node)` (no disconnect, no
 starting nodes) and `node.label = old_label` -/
 def undoAdopt (c : Nat) : Tree → List (Nat × Str) → Tree
